@@ -21,6 +21,7 @@ type Exec struct {
 	mapValSorts map[string]Sort
 	baseCounter int
 	curCall     *ssa.CallCommon // the call being executed (dynamic-target resolution)
+	recInfos    map[*ssa.Function]*recInfo
 	entry       *State // snapshot of the unit's entry state (for old())
 	depth       int
 	safety      bool // generate no-panic obligations
